@@ -149,9 +149,10 @@ type c07Case struct {
 	FilterPost bool   `json:"filter_post"`
 	CustomErr  bool   `json:"custom_error_handler"`
 	CustomRec  bool   `json:"custom_recover_handler"`
-	Status     int    `json:"status"`      // explicit status written by the handler first (0: none)
-	Forward    bool   `json:"forward"`     // the addressed route hands its Response to a nested Dispatch for the real route
-	Real       bool   `json:"real_server"` // the container sits behind a real net/http server; an http.Client reads the response
+	Status     int    `json:"status"`         // explicit status written by the handler first (0: none)
+	Forward    bool   `json:"forward"`        // the addressed route hands its Response to a nested Dispatch for the real route
+	Real       bool   `json:"real_server"`    // the container sits behind a real net/http server; an http.Client reads the response
+	Reused     bool   `json:"builder_reused"` // each RouteBuilder goes on to build a sibling route with the opposite encoding setting
 }
 
 var (
@@ -187,7 +188,7 @@ func valid07(k *c07Case) bool {
 
 func c07(ctx *core.Ctx) {
 	quietLogs()
-	ctx.Rule("matrix: entry {ServeHTTP, Dispatch, Handle, HandleWithFilter} x container switch x route override {unset, off, on} x Accept-Encoding (12 values) x pre-set Content-Encoding x provider {sync.Pool, bounded 0/1/4, custom non-pooling, custom recycling-on-release} x outcome {ok, 404, 405, 406, 415, panic before output, panic after partial output} x writer already a CompressingResponseWriter x payload {0, 1, 100, 70000 (1 MB thorough)} in random chunks across a container filter (before/after) and the handler, explicit handler statuses {none, 200, 201, 206, 404, 500}, forwarding handlers (Response handed to a nested Dispatch before anything is written); custom or default error/recover writers; every 5th ServeHTTP cell runs behind a real net/http server and is read by an http.Client (no transparent decompression). quick: seeded random sample of cells; thorough: the full product of the switch dimensions, forty payload/chunkings per cell. Oracle per response: applied coding => label in {gzip,deflate}, Accept-Encoding mentions it, encoding enabled for the request, complete-stream decode == logged bytes; else body == logged bytes and no Content-Encoding added. Non-trivial = a response with a non-empty body or an applied coding; distinct by the switch cell (entry, cont, route, AE, preset, outcome, prewrapped, applied).")
+	ctx.Rule("matrix: entry {ServeHTTP, Dispatch, Handle, HandleWithFilter} x container switch x route override {unset, off, on} x Accept-Encoding (12 values) x pre-set Content-Encoding x provider {sync.Pool, bounded 0/1/4, custom non-pooling, custom recycling-on-release} x outcome {ok, 404, 405, 406, 415, panic before output, panic after partial output} x writer already a CompressingResponseWriter x payload {0, 1, 100, 70000 (1 MB thorough)} in random chunks across a container filter (before/after) and the handler, explicit handler statuses {none, 200, 201, 206, 404, 500}, forwarding handlers (Response handed to a nested Dispatch before anything is written), RouteBuilders reused afterwards for a sibling route with the opposite setting (a third of the cells); custom or default error/recover writers; every 5th ServeHTTP cell runs behind a real net/http server and is read by an http.Client (no transparent decompression). quick: seeded random sample of cells; thorough: the full product of the switch dimensions, forty payload/chunkings per cell. Oracle per response: applied coding => label in {gzip,deflate}, Accept-Encoding mentions it, encoding enabled for the request, complete-stream decode == logged bytes; else body == logged bytes and no Content-Encoding added. Non-trivial = a response with a non-empty body or an applied coding; distinct by the switch cell (entry, cont, route, AE, preset, outcome, prewrapped, applied).")
 	ctx.Assume("the property does not demand that a coding is applied when enabled; evidence reports how many responses were encoded",
 		"with the default recover handler the stack text is not predictable: prefix and stream completeness are judged")
 	defer restful.SetCompressorProvider(restful.NewSyncPoolCompessors())
@@ -270,6 +271,7 @@ func c07(ctx *core.Ctx) {
 		}
 		k.Real = k.Entry == "ServeHTTP" && !k.Preset && !k.Prewrapped && ci%5 == 0
 		k.CustomErr, k.CustomRec = r.Chance(1, 2), r.Chance(2, 3)
+		k.Reused = r.Chance(1, 3)
 		if ci%97 == 0 || ctx.OnlyCase >= 0 {
 			ctx.Case(ci, core.JSON(k))
 		}
@@ -378,7 +380,7 @@ func runC07(k *c07Case, seed uint64, ae string) (*c07Obs, []byte) {
 	})
 	jsonRoute := ws.GET("/json").Produces(restful.MIME_JSON).To(func(req *restful.Request, resp *restful.Response) {})
 	postRoute := ws.POST("/post").Consumes(restful.MIME_JSON).To(func(req *restful.Request, resp *restful.Response) {})
-	for _, rb := range []*restful.RouteBuilder{okRoute, fwdRoute, jsonRoute, postRoute} {
+	for i, rb := range []*restful.RouteBuilder{okRoute, fwdRoute, jsonRoute, postRoute} {
 		switch k.Route {
 		case "off":
 			rb.ContentEncodingEnabled(false)
@@ -386,6 +388,10 @@ func runC07(k *c07Case, seed uint64, ae string) (*c07Obs, []byte) {
 			rb.ContentEncodingEnabled(true)
 		}
 		ws.Route(rb)
+		if k.Reused {
+			// the builder is used again for a sibling route with the opposite setting: routes already built keep theirs
+			ws.Route(rb.Path([]string{"/ok", "/fwd", "/json", "/post"}[i] + "-sibling").ContentEncodingEnabled(k.Route != "on"))
+		}
 	}
 	c.Add(ws)
 	plain := http.HandlerFunc(func(w http.ResponseWriter, r *http.Request) { writeChunks(w, r, -1) })
